@@ -60,10 +60,17 @@ def wft_z(eng, Q, k):
         tb, te = int(eng.repo.class_attr(cls, 'token_begin')), int(eng.repo.class_attr(cls, 'token_end'))
         fs.append(Implies(ct == tb, tx == pystr(b)))
         fs.append(Implies(ct == te, tx == pystr(e)))
-        for lit in (b, e):       # NW on the delimiter literals (computed)
+    return And(*(fs + nw_literals(eng)))
+
+
+def nw_literals(eng):
+    """NW on the delimiter literals (definitional: computed from the literal)"""
+    fs = []
+    for cls in data_c.GROUPS + data_c.MATHS:
+        for lit in (eng.repo.class_attr(cls, 'begin'), eng.repo.class_attr(cls, 'end')):
             fs.append(NW(pystr(lit)) == pystr(''.join(ch for ch in lit if ch not in ' \t\n\r')))
     fs.append(NW(pystr('\\')) == pystr('\\'))
-    return And(*fs)
+    return fs
 
 
 @REG.specfun('wft')
